@@ -82,7 +82,9 @@ func execNode(t *testing.T, job vx.Job) (res vx.Result) {
 func runNode(events []string, props []string, args map[string]string) (res vx.Result) {
 	w := newWorld()
 	w.exclKey = nodeKey
-	n := newNode(w, nodeKey, "n")
+	n := &node{w: w, keyIdx: nodeKey, name: "n", gateSM: true}
+	n.st = newNodeStores(w)
+	n.start()
 	s := &sys{w: w, eng: n, st: &n.st.stores, rhr: n.rhr, recrash: -1}
 	s.sm.acted = map[string]bool{}
 	n.sys = s
